@@ -127,9 +127,19 @@ func c14Open(c *core.Ctx, pkg *packages.Package) {
 	c.Check(guardOK, "C14.open", "Service.Open#enabled-start", inner.Pos(), "startTask(task) must be called for exactly the tasks with Status == Enabled")
 	// paging: the outer loop breaks only on a short page and advances the offset by the limit
 	brk, adv := false, false
+	// the page is what the loop ranges over; offset and limit are the last two arguments of the List call that produced it
+	offName, limName := "offset", "limit"
+	ast.Inspect(outer.Body, func(n ast.Node) bool {
+		if as, ok := n.(*ast.AssignStmt); ok && len(as.Rhs) == 1 && len(as.Lhs) >= 1 && types.ExprString(as.Lhs[0]) == types.ExprString(inner.X) {
+			if call, ok := as.Rhs[0].(*ast.CallExpr); ok && len(call.Args) >= 2 {
+				offName, limName = types.ExprString(call.Args[len(call.Args)-2]), types.ExprString(call.Args[len(call.Args)-1])
+			}
+		}
+		return true
+	})
 	for _, st := range outer.Body.List {
 		if ifs, ok := st.(*ast.IfStmt); ok {
-			if strings.Contains(types.ExprString(ifs.Cond), "len(") && strings.Contains(types.ExprString(ifs.Cond), "!= limit") {
+			if strings.Contains(types.ExprString(ifs.Cond), "len(") && strings.Contains(types.ExprString(ifs.Cond), "!= "+limName) {
 				for _, s := range ifs.Body.List {
 					if b, ok := s.(*ast.BranchStmt); ok && b.Tok == token.BREAK {
 						brk = true
@@ -137,7 +147,7 @@ func c14Open(c *core.Ctx, pkg *packages.Package) {
 				}
 			}
 		}
-		if as, ok := st.(*ast.AssignStmt); ok && as.Tok == token.ADD_ASSIGN && types.ExprString(as.Lhs[0]) == "offset" && types.ExprString(as.Rhs[0]) == "limit" {
+		if as, ok := st.(*ast.AssignStmt); ok && as.Tok == token.ADD_ASSIGN && types.ExprString(as.Lhs[0]) == offName && types.ExprString(as.Rhs[0]) == limName {
 			adv = true
 		}
 	}
@@ -255,6 +265,36 @@ func c14Update(c *core.Ctx, pkg *packages.Package) {
 	if fn == nil {
 		return
 	}
+	// the handler's variables by role: the stored task (first result of tasks.Get), its edited copy (defined as a copy of
+	// it), the status-changed flag (the bool the status comparison is stored in); keys are rewritten to the names used below
+	origN, updN, chgN := "original", "updated", "statusChanged"
+	ast.Inspect(fn.Decl.Body, func(n ast.Node) bool {
+		as, ok := n.(*ast.AssignStmt)
+		if !ok || as.Tok != token.DEFINE {
+			return true
+		}
+		if len(as.Lhs) == 2 && len(as.Rhs) == 1 {
+			if call, ok := as.Rhs[0].(*ast.CallExpr); ok {
+				if sel, ok := call.Fun.(*ast.SelectorExpr); ok && sel.Sel.Name == "Get" && an.FieldSel(info, sel.X, "Service", "tasks") {
+					origN = types.ExprString(as.Lhs[0])
+				}
+			}
+		}
+		if len(as.Lhs) == 1 && len(as.Rhs) == 1 {
+			if types.ExprString(as.Rhs[0]) == origN && origN != "" {
+				updN = types.ExprString(as.Lhs[0])
+			}
+			if be, ok := as.Rhs[0].(*ast.BinaryExpr); ok && be.Op == token.NEQ && (strings.HasSuffix(types.ExprString(be.X), ".Status") || strings.HasSuffix(types.ExprString(be.Y), ".Status")) {
+				chgN = types.ExprString(as.Lhs[0])
+			}
+		}
+		return true
+	})
+	canon := func(k string) string {
+		k = replaceIdent(k, origN, "original")
+		k = replaceIdent(k, updN, "updated")
+		return replaceIdent(k, chgN, "statusChanged")
+	}
 	eng := &an.Engine{Prog: c.P,
 		TrackCall: func(call *ast.CallExpr, callee *types.Func) string {
 			if callee == nil {
@@ -271,6 +311,7 @@ func c14Update(c *core.Ctx, pkg *packages.Package) {
 			return ""
 		},
 		Classify: func(a an.Atom) (string, bool) {
+			a.L, a.R, a.Key = canon(a.L), canon(a.R), canon(a.Key)
 			switch {
 			case a.Op == token.EQL && ((a.L == "original.ID" && a.R == "updated.ID") || (a.R == "original.ID" && a.L == "updated.ID")):
 				return "sameid", false
@@ -300,7 +341,7 @@ func c14Update(c *core.Ctx, pkg *packages.Package) {
 		if !ok {
 			return false
 		}
-		cond := types.ExprString(ifs.Cond)
+		cond := canon(types.ExprString(ifs.Cond))
 		return cond == "original.ID != updated.ID" || cond == "updated.ID != original.ID"
 	})
 	if err != nil {
@@ -317,7 +358,7 @@ func c14Update(c *core.Ctx, pkg *packages.Package) {
 				}
 				s = append(s, e.Name+"("+strings.Join(e.Args, ",")+")")
 			}
-			w := strings.Join(s, ",")
+			w := canon(strings.Join(s, ","))
 			if p.Assign()["sameid"] {
 				w = strings.ReplaceAll(w, "updated.ID", "original.ID") // the same id on this path
 			}
